@@ -62,6 +62,11 @@ def gen(tier, rng, harness=None, driver=None):
     from . import wholegen
     lines += wholegen.print_lines(rng, n // 2)
     lines += wholegen.parse_stream(rng, driver, n // 3)
+    # M-DI: the specialised metadata nodes (26 kinds; the table of kinds and fields is regenerated from the printer and the translation of /repo): nodes built by
+    # reflection on the real structs print byte for byte what the model prints from the regenerated table, survive print -> parse -> print, and the real parser
+    # agrees with the proved reader + translation on printed nodes and on mutants (fields in another order, written twice, written at the omitted value, unknown and
+    # foreign keywords, missing punctuation, distinct toggled)
+    lines += di_stream(rng, harness, driver, n)
     for t in modprops.corpus_texts():
         lines.append("!mod.stable - %s" % hx(t))
         lines.append("!mod.closure - %s" % hx(t))
@@ -78,6 +83,18 @@ def gen(tier, rng, harness=None, driver=None):
         t2, _ = modgen.render(m, rng, shuffle=True)
         lines.append("!mod.canon %s %s %s" % (hx(sk), hx(t2), hx(text)))
     return lines
+
+
+def di_stream(rng, harness, driver, n):
+    from . import digen
+    import json
+    rc, out = C.sh([harness, "facts"], env=C.GOENV, timeout=300)
+    if rc != 0:
+        raise C.BrokenTie("fact extractor failed: " + out[-2000:])
+    table = digen.Table(json.loads(out)["difields"], regen.enum_table(harness))
+    lines = digen.print_lines(rng, table, max(16, n // 4))
+    pl, _ = digen.parse_stream(rng, table, driver, max(24, n // 3))
+    return lines + pl
 
 
 def core3_parse_stream(rng, driver, n):
@@ -153,7 +170,7 @@ def nontrivial(ln, model_out):
 
 def search(ln, a, b, harness, driver):
     p = ln.split()
-    if p[0] in ("meta.parse", "meta.print", "whole.parse", "whole.print"):
+    if p[0] in ("meta.parse", "meta.print", "whole.parse", "whole.print", "di.print", "di.parse"):
         # the proved model and the implementation differ on this text / section: it is itself the failing input when acceptance differs or the texts differ
         return {"ops": [ln], "impl": [a], "model": [b]}
     if p[0] in ("core2.readconst", "core2.print", "core2.reparse", "core3.parse", "core3.print", "core3.reparse"):
